@@ -408,12 +408,14 @@ fn boundary<'t, A>(tree: &Tokenized<'t, A>) -> Result<(), RuleError<'t>>
 where
     A: Spanned,
 {
+    // Only tokens within the same concatenation are adjacent. Tokens in different concatenations
+    // may occupy the same position in the tree, but are unrelated.
     if let Some((left, right)) = walk::forward(tree)
-        .group_by(TokenEntry::position)
-        .into_iter()
-        .flat_map(|(_, group)| {
-            group
-                .map(TokenEntry::into_token)
+        .map(TokenEntry::into_token)
+        .flat_map(|token| {
+            token
+                .concatenation()
+                .iter()
                 .tuple_windows::<(_, _)>()
                 .filter(|(left, right)| left.boundary().and(right.boundary()).is_some())
                 .map(|(left, right)| (*left.annotation().span(), *right.annotation().span()))
